@@ -100,20 +100,10 @@ func c17R1(p *Prog, r *Report) {
 	recv := pm.RecvObj()
 	var idEdges = map[int64][]Edge{}
 	var anyID []Edge
-	for _, v := range pm.G.V {
-		if v.Kind != VSwitchCase || !strings.HasSuffix(exprStr(v.Tag), ".ID") {
-			continue
-		}
-		k, isC := constInt(pinfo, v.Node.(ast.Expr))
-		if !isC {
-			continue
-		}
-		for _, e := range v.Succs {
-			if e.Label == LTrue {
-				idEdges[k] = append(idEdges[k], e)
-				anyID = append(anyID, e)
-			}
-		}
+	isID := func(e ast.Expr) bool { return strings.HasSuffix(exprStr(e), ".ID") }
+	for _, k := range []int64{4, 6} {
+		idEdges[k] = pm.EqConstEdges(isID, k)
+		anyID = append(anyID, idEdges[k]...)
 	}
 	r.Check(len(idEdges[4]) > 0 && len(idEdges[6]) > 0, rule, "dns.(*resultBuilder).parseMsg:id-switch", p.posStr(pm.Body.Pos()), "transaction IDs 4 and 6 are distinguished", "the transaction-ID switch was not found")
 	// default → error
@@ -230,16 +220,9 @@ func c17R1(p *Prog, r *Report) {
 
 // caseValueGuard: v is inside `switch header.ID { case want: ... }` nested after the main switch.
 func caseValueGuard(fc *FuncCtx, v int, want int64) bool {
-	for _, sv := range fc.G.V {
-		if sv.Kind != VSwitchCase || !strings.HasSuffix(exprStr(sv.Tag), ".ID") {
-			continue
-		}
-		if k, isC := constInt(fc.Info(), sv.Node.(ast.Expr)); isC && k == want {
-			for _, e := range sv.Succs {
-				if e.Label == LTrue && fc.G.EdgeDominates([]Edge{e}, v) {
-					return true
-				}
-			}
+	for _, e := range fc.EqConstEdges(func(e ast.Expr) bool { return strings.HasSuffix(exprStr(e), ".ID") }, want) {
+		if fc.G.EdgeDominates([]Edge{e}, v) {
+			return true
 		}
 	}
 	return false
@@ -332,22 +315,36 @@ func c17R2(p *Prog, r *Report) {
 	r.Check(okConj, rule, "dns.(*resultBuilder).isDone:both-families", p.posStr(id.Body.Pos()), "done means both families answered", "isDone is not the conjunction of both families' flags")
 	// TCP: selection of the unanswered query
 	tq := p.Func("dns", "Resolver", "sendQueriesTCP")
+	// shape-neutral: a statement that drops the A query (x = x[k:]) runs only on the v4done-true
+	// edge, one that drops the AAAA query (x = x[:k]) only on the v6done-true edge, both exist,
+	// and k is the same integer parameter (the end of the A query) in both.
 	var okSel = map[string]bool{}
-	ast.Inspect(tq.Body, func(n ast.Node) bool {
-		cc, ok := n.(*ast.CaseClause)
-		if !ok || len(cc.List) != 1 || len(cc.Body) != 1 {
-			return true
+	tinfo := tq.Info()
+	doneEdges := func(f string) []Edge {
+		return tq.TestEdges(func(e ast.Expr) bool { return strings.HasSuffix(exprStr(e), "."+f) }, WantTrue)
+	}
+	var bounds []types.Object
+	for _, v := range tq.G.V {
+		as, ok := v.Node.(*ast.AssignStmt)
+		if !ok || v.Kind != VStmt || len(as.Lhs) != 1 || len(as.Rhs) != 1 {
+			continue
 		}
-		cond := exprStr(cc.List[0])
-		body := exprStr(cc.Body[0])
+		sl, ok := ast.Unparen(as.Rhs[0]).(*ast.SliceExpr)
+		if !ok || !samePath(tinfo, as.Lhs[0], sl.X) {
+			continue
+		}
 		switch {
-		case strings.HasSuffix(cond, ".v4done") && !strings.Contains(cond, "&&"):
-			okSel["v4"] = body == "b = b[q4PktEnd:]"
-		case strings.HasSuffix(cond, ".v6done") && !strings.Contains(cond, "&&"):
-			okSel["v6"] = body == "b = b[:q4PktEnd]"
+		case sl.Low != nil && sl.High == nil:
+			okSel["v4"] = tq.G.EdgeDominates(doneEdges("v4done"), v.ID)
+			bounds = append(bounds, objOf(tinfo, sl.Low))
+		case sl.Low == nil && sl.High != nil:
+			okSel["v6"] = tq.G.EdgeDominates(doneEdges("v6done"), v.ID)
+			bounds = append(bounds, objOf(tinfo, sl.High))
 		}
-		return true
-	})
+	}
+	if len(bounds) != 2 || bounds[0] == nil || bounds[0] != bounds[1] {
+		okSel["v4"] = false
+	}
 	r.Check(okSel["v4"] && okSel["v6"], rule, "dns.(*Resolver).sendQueriesTCP:resend-unanswered-only", p.posStr(tq.Body.Pos()), "with A answered only the AAAA query is re-sent and vice versa", "the TCP retry re-sends the already answered query (or drops the unanswered one)")
 	r.Floor(rule, 6)
 }
